@@ -303,8 +303,17 @@ def colebrook_white(re, d, k, lambda_nikuradse, max_iter, lengths, tolerance=1e-
     mask = ~np.isclose(re, 0) & ~np.isclose(lengths, 0, rtol=1e-10, atol=1e-11)
     lambda_res = lambda_nikuradse
 
-    res = newton(colebrook_white_implicit, lambda_res[mask], maxiter=max_iter, args=(re[mask], k[mask], d[mask]),
-                 tol=tolerance, full_output=True, fprime=cw_derivative)  # , fprime2=cw_derivative_2)
+    if not np.any(mask):
+        # no branch with flow: nothing to solve, the initial guess is returned (see docstring)
+        return True, lambda_res
+
+    try:
+        res = newton(colebrook_white_implicit, lambda_res[mask], maxiter=max_iter, args=(re[mask], k[mask], d[mask]),
+                     tol=tolerance, full_output=True, fprime=cw_derivative)  # , fprime2=cw_derivative_2)
+    except RuntimeError:
+        # scipy raises if no element converges (e.g. NaN flows of an infeasible network): report
+        # non-convergence of lambda and let the pipeflow iteration decide
+        return False, lambda_res
 
     if lambda_res[mask].size == 1:
         lambda_res[mask] = res[0]
